@@ -437,7 +437,7 @@ func main() {
 	run.Mandatory(mand...)
 	initPool()
 
-	n := run.N(6000, 80000)
+	n := run.N(6000, 60000)
 	if rc := run.ReplayCase(); rc >= 0 {
 		for _, m := range mand { // a single replayed case cannot observe every scenario
 			run.Observed(m)
